@@ -8,4 +8,5 @@ cp /repo/go.sum "$ROOT/harness/go.sum"
 cd "$ROOT/harness"
 "$GO" build -tags verif -o "$ROOT/.bin/verifx" ./cmd/verifx
 "$GO" build -tags verif -race -o "$ROOT/.bin/verifx-race" ./cmd/verifx
+"$ROOT/.bin/verifx" drive SELF quick >/dev/null || { echo "emulator self-validation failed"; exit 1; }
 echo "setup ok: $("$GO" version)"
